@@ -9,8 +9,8 @@ for d in seeded/*/; do
   cp -r /repo/malt $copy/
   ( cd $copy && patch -p1 -s < /verif/$d/patch.diff ) || { echo "$name PATCH FAILED"; rm -rf $copy; continue; }
   out=$(VERIF_REPO=$copy ./check $id --tier quick 2>&1); rc=$?
-  keys=$(for f in $(echo "$out" | grep '^VIOLATION' | sed 's/.*replay=\([^ ]*\).*/\1/'); do python3 -c "import json,sys; print(json.load(open('$f'))['key'])"; done | tr '\n' ' ')
-  echo "$name exit=$rc violations=$(echo "$out" | grep -c '^VIOLATION') undecided=$(echo "$out" | grep -c '^UNDECIDED') keys: $keys" | cut -c1-600
+  keys=$(for f in $(echo "$out" | grep '^VIOLATION property=' | sed 's/.*replay=\([^ ]*\).*/\1/'); do python3 -c "import json,sys; print(json.load(open('$f'))['key'])"; done | tr '\n' ' ')
+  echo "$name exit=$rc violations=$(echo "$out" | grep -c '^VIOLATION property=') undecided=$(echo "$out" | grep -c '^UNDECIDED') keys: $keys" | cut -c1-600
   rm -rf $copy
 done
 rm -rf evidence; mv $save/evidence evidence; rmdir $save
